@@ -78,7 +78,7 @@ def gen_env(r):
             # bottom-up one (setarch -L), or the default with another stack limit, which moves the base of every mapping -- shared
             # libraries and the simulated heap with it
             "layout": r.pick([0, 0, 1, 2, 3]),
-            "stdout_kind": r.pick(["pipe", "pipe", "file", "null"]),   # what descriptor 1 is: a pipe, a regular file, the null device
+            "stdout_kind": r.pick(["pipe", "pipe", "file", "null", "fileoffset", "fileappend"]),   # what descriptor 1 is: a pipe, a regular file, the null device
             "closefd": r.pick([None, None, None, None, 2, 2, 0]),   # a standard descriptor that is closed when the compiler starts (cron- and daemon-style launchers)
             "envfuzz": r.range(1, 1 << 30),    # answers to getenv() calls of the compiler itself (none in the unchanged tree)
             # bytes of old content in the output and dependency files before the run; -1: what an earlier, slightly different build left there
@@ -256,6 +256,14 @@ def gen_lex_file(r):
     for i in range(r.range(3, 9)):
         f = r.pick(forms)
         out.append(f.replace("%d", str(i)))
+    if r.below(3) == 0:
+        # many numeric literals in one file, in every spelling (leading zeros on floating constants included: 08.5 is a double)
+        pool = ["00.5", "07e1", "03.5f", "08.5", "09e0", "0129.0", "000.125L", "1e+5", "1.e5", ".5e-3", "0x1.8p3", "0X1P-2", "1e5f", "1e5L", "0b101", "0777", "0xFFu", "1ul",
+                "1lu", "1LL", "1uLL", "0.0", "0e0", "1.", "1.f", "5e-1", "4.9e-324", "1e309", "0x1p1023", "017", "0", "00", "0x0", "1e-5000L", "123456789012345678901.0"]
+        for i in range(r.pick([10, 25, 60])):
+            lit = r.pick(pool)
+            out.append("%s n%d = %s;" % ("long double" if lit.endswith("L") and "." in lit or "e" in lit.lower() and not lit.lower().startswith("0x") and lit[-1] in "lL" else
+                                          "double" if any(c in lit.lower() for c in ".ep") and not lit.lower().startswith("0b") and not (lit.lower().startswith("0x") and "p" not in lit.lower()) else "long", 100 + i, lit))
     if r.below(2):
         out.append(r.pick(["\t\tint café = 3 $ 4;", "  char *p = \"世界\" @;", "\tint x = 08 + 1;", "int y = 0x;", "int z = 1.5e+;", "char c = '';", 'char *s = "unterminated;', "int big = 99999999999999999999999;"]))
     return "\n".join(out) + "\nint main(void) { return 0; }\n"
@@ -805,7 +813,17 @@ def run_replica(sdir, reps, stage, e, infile, opts, src, wdir, stats, timeout=No
     files_before = listing()
     sk = e.get("stdout_kind", "pipe")
     so_path = os.path.join(real_wdir, "stdout.cap")
-    so_arg = subprocess.PIPE if sk == "pipe" else (open(so_path, "wb") if sk == "file" else open(os.devnull, "wb"))
+    SO_PREFIX = b"earlier text written through descriptor 1\n" * 3
+    if sk in ("fileoffset", "fileappend"):
+        # descriptor 1 is a file that already holds text: positioned after it, or opened for appending. What the compiler
+        # writes comes after that text and leaves it alone.
+        with open(so_path, "wb") as f0:
+            f0.write(SO_PREFIX)
+        so_arg = open(so_path, "ab") if sk == "fileappend" else open(so_path, "r+b")
+        if sk == "fileoffset":
+            so_arg.seek(len(SO_PREFIX))
+    else:
+        so_arg = subprocess.PIPE if sk == "pipe" else (open(so_path, "wb") if sk == "file" else open(os.devnull, "wb"))
     po = subprocess.Popen(argv, cwd=wdir, env=env_vars(e, sdir, stats), stdin=stdin_arg, stdout=so_arg, stderr=subprocess.PIPE,
                           start_new_session=True, pass_fds=extra_fds, preexec_fn=_child_setup(e, bigstack, from_stdin, records_cwd))
     if isinstance(stdin_arg, int) and stdin_arg >= 0 and from_stdin:
@@ -828,7 +846,9 @@ def run_replica(sdir, reps, stage, e, infile, opts, src, wdir, stats, timeout=No
     p = P()
     if sk != "pipe":
         so_arg.close()
-        so = open(so_path, "rb").read() if sk == "file" else None   # (what went to the null device is gone: not compared)
+        so = open(so_path, "rb").read() if sk != "null" else None   # (what went to the null device is gone: not compared)
+        if sk in ("fileoffset", "fileappend"):
+            so = so[len(SO_PREFIX):] if so.startswith(SO_PREFIX) else b"<the text that was there before is damaged> " + so
     p.returncode, p.stdout, p.stderr = po.returncode, so, se
     # the assembler names its input, a temporary with a random name, in its own messages: not compiler output
     err = re.sub(rb"/tmp/chibicc-[A-Za-z0-9]{6}", b"/tmp/chibicc-TEMP", p.stderr)
